@@ -42,6 +42,8 @@ type V struct {
 	// MayDec (UBJSON): this integer sits in a typed unsigned container that holds
 	// a value above MaxInt64, so it may arrive as its decimal string.
 	MayDec bool
+	// Lit (JSON only): the number literal this node was written as / read from.
+	Lit string
 }
 
 type Member struct {
